@@ -54,8 +54,10 @@ let offsets layout =
 
 let print_record r = match r with
   | RHeader (m, maxret, xff, layout) ->
-    obs "out hdr %s %s %s %08Lx %d" (string_of_codes (method_string m)) (dec_of_z m) (dec_of_z maxret) (u64_of_z xff) (List.length layout);
-    List.iteri (fun i ((s, n), off) -> obs "out ainfo %d %s %s %d" i (dec_of_z s) (dec_of_z n) off)
+    (* durations are shown as seconds and as the text the report uses (the largest unit that divides) *)
+    obs "out hdr %s %s %s %08Lx %d text=%s" (string_of_codes (method_string m)) (dec_of_z m) (dec_of_z maxret) (u64_of_z xff) (List.length layout)
+      (string_of_codes (duration_string maxret));
+    List.iteri (fun i ((s, n), off) -> obs "out ainfo %d %s %s %d text=%s" i (dec_of_z s) (dec_of_z n) off (string_of_codes (duration_string s)))
       (List.combine layout (offsets layout))
   | RPoint (a, t, v) -> obs "out pt %s %s %s" (dec_of_z a) (dec_of_z t) (show_val v)
   | RDiff (a, t, s, d, dl) -> obs "out diff %s %s %s %s %s" (dec_of_z a) (dec_of_z t) (show_val s) (show_val d) (show_val dl)
